@@ -313,7 +313,15 @@ class AtomicTransaction(StoreTransaction):
                 {"id": owner_id},
             ).fetchone()
             owner_gone = owner_row is None
-            owner_terminal = owner_row is not None and WorkflowStatus[owner_row[0]].is_complete
+            # A terminal owner has left the critical section; so has one that a
+            # jump or an operator restart re-armed (NOT_STARTED): a stage becomes
+            # RUNNING in the very transaction that takes the claim, so a
+            # NOT_STARTED owner holds nothing - waiting for it would block the
+            # next loop iteration for ever.
+            owner_status = WorkflowStatus[owner_row[0]] if owner_row is not None else None
+            owner_terminal = owner_status is not None and (
+                owner_status.is_complete or owner_status == WorkflowStatus.NOT_STARTED
+            )
             if owner_gone or owner_terminal:
                 cursor = self._conn.execute(
                     """
